@@ -172,9 +172,9 @@ def nodal_option_specs(tier):
 
 
 def mesh_specs(tier):
-    s = [spec('fast', 4, 5, 13, 7, '7/3', mesh=[1, 2, 2]), spec('fast', 3, 5, 10, 7, 'None', mesh=[2, 2, 1])]
+    s = [spec('fast', 3, 5, 10, 7, '7/3', mesh=[2, 2, 1])]
     if tier != 'quick':
-        s += [spec('fast', 4, 5, 13, 7, '1', mesh=[1, 4, 2]), spec('fast', 4, 6, 13, 8, '7/3', mesh=[2, 2, 2]),
+        s += [spec('fast', 4, 5, 13, 7, '7/3', mesh=[1, 2, 2]), spec('fast', 4, 5, 13, 7, '1', mesh=[1, 4, 2]), spec('fast', 4, 6, 13, 8, '7/3', mesh=[2, 2, 2]),
               spec('fast', 3, 4, 10, 6, '7/3', mesh=[1, 3, 2]), spec('fast', 3, 4, 10, 6, '1', mesh=[2, 1, 2]),
               spec('fast', 2, 3, 8, 6, '7/3', mesh=[1, 2, 4])]
     return s
@@ -260,9 +260,10 @@ def generate(ctx):
         yield 'forms', {'grid': sp, 'seed': int(rng.integers(0, 2 ** 31)), 'batches': bs[k::2] if quick else bs}
         yield 'purity', {'grid': sp, 'seed': int(rng.integers(0, 2 ** 31))}
     yield 'deriv_axes', {'seed': int(rng.integers(0, 2 ** 31)), 'shapes': [[5, 4, 7], [4, 6, 3]] if quick else [[5, 4, 7], [4, 6, 3], [7, 2, 5], [2, 7, 6], [1, 2, 3]]}
+    yield 'constructors', {'seed': int(rng.integers(0, 2 ** 31))}
     for sp in mesh_specs(ctx.tier):
         ctx.count('mesh=%s' % (sp['mesh'],))
-        yield 'sharded', {'grid': sp, 'seed': int(rng.integers(0, 2 ** 31)), 'levels': [3, 1] if quick else [3, 1, 5, 8]}
+        yield 'sharded', {'grid': sp, 'seed': int(rng.integers(0, 2 ** 31)), 'levels': [3] if quick else [3, 1, 5, 8], 'all_ops': 0 if quick else 1}
 
 
 # ---------------------------------------------------------------------------
@@ -830,12 +831,13 @@ class NP:
                 'curl_cos_lat': lambda x, y, c: self.curl(x, y, c), 'get_cos_lat_vector': lambda x, y, c: self.getvec(x, y, c)}
 
 
-def against_numpy(ctx, G_, x, y, what=''):
+def against_numpy(ctx, G_, x, y, what='', only=None):
     """every operator of the implementation against the numpy reference of this plugin"""
     jnp = J()[0]
     ref = NP(G_).table()
     for name, (cmd, ar, fn) in ops_table(G_).items():
-        for c in ((True, False) if cmd in (16, 18, 19, 20) else (True,)):
+        if only is not None and name not in only: continue
+        for c in ((True, False) if cmd in (16, 18, 19, 20) and only is None else (True,)):
             want = ref[name](x, y, c)
             ctx.oracle_close('%s clip=%s = the documented operator (numpy reference)%s' % (name, c, what),
                              np.asarray(fn(jnp.asarray(x), jnp.asarray(y), c)), want, scale=float(np.abs(want).max()) + 1e-300)
@@ -911,7 +913,7 @@ def r_purity(ctx, a):
     """The same grid object evaluated repeatedly, interleaved with other inputs and other grids: bit-identical results,
     cached tables never modified; radius is a jit-static difference."""
     jnp, sh, fourier, jnu = J()
-    G_ = grid(a['grid']); g = G_.g; R, C, L = G_.R, G_.C, G_.L
+    G_ = G(a['grid']); g = G_.g; R, C, L = G_.R, G_.C, G_.L      # a FRESH grid object: its cached tables are pristine
     rng = np.random.Generator(np.random.PCG64(a['seed']))
     x = rng.integers(-8, 9, size=(R, C)).astype(np.float64); y = rng.integers(-8, 9, size=(R, C)).astype(np.float64)
     x2 = rng.integers(-8, 9, size=(R, C)).astype(np.float64)
@@ -1011,7 +1013,9 @@ def r_sharded(ctx, a):
     x = rng.integers(-8, 9, size=(R, C)).astype(np.float64); y = rng.integers(-8, 9, size=(R, C)).astype(np.float64)
     ctx.exact('modal shape on the mesh', [R, C], [int(-(-2 * G_.M // (16 * xs)) * 16 * xs), int(-(-L // (8 * ys)) * 8 * ys)])
     cmp(ctx, 'd_dlon on mesh %s' % (a['grid']['mesh'],), np.asarray(g.d_dlon(jnp.asarray(x))), G_.call(ctx, 10, x))
-    against_numpy(ctx, G_, x, y, ' on mesh %s' % (a['grid']['mesh'],))
+    # (every d_dlon call on a mesh re-traces a shard_map: keep the number of calls small)
+    against_numpy(ctx, G_, x, y, ' on mesh %s' % (a['grid']['mesh'],),
+                  only=None if a.get('all_ops') else ('cos_lat_d_dlat', 'sec_lat_d_dlat_cos2', 'laplacian', 'inverse_laplacian', 'div_cos_lat'))
     ref = NP(G_)
     for k in a['levels']:
         xb = rng.integers(-8, 9, size=(k, R, C)).astype(np.float64)
@@ -1025,6 +1029,50 @@ def r_sharded(ctx, a):
         gl = np.asarray(jnp.stack(g.cos_lat_grad(jnp.asarray(xb))))
         want = np.stack([ref.grad(xb[t]) for t in range(k)], axis=1)
         ctx.oracle_close('cos_lat_grad with %d levels on mesh = numpy reference' % k, gl, want, scale=float(np.abs(want).max()) + 1e-300)
+
+
+def r_constructors(ctx, a):
+    """Grid.with_wavenumbers / construct / named constructors pass every option through (radius, implementation,
+    spacing, offset) and produce the documented sizes; dataclasses.replace gives a grid with its own tables."""
+    import dataclasses, math
+    jnp, sh, fourier, jnu = J()
+    rng = np.random.Generator(np.random.PCG64(a['seed']))
+    F = sh.FastSphericalHarmonics
+    cases = []
+    for M, deal, order in ((4, 'linear', 2), (3, 'quadratic', 3), (2, 'cubic', 4)):
+        for impl, spc, off, rad in ((sh.RealSphericalHarmonics, 'gauss', 0.0, None), (F, 'equiangular', 0.3, 2.5)):
+            got = sh.Grid.with_wavenumbers(M, dealiasing=deal, latitude_spacing=spc, longitude_offset=off,
+                                           spherical_harmonics_impl=impl, radius=rad)
+            want = sh.Grid(longitude_wavenumbers=M, total_wavenumbers=M + 1, longitude_nodes=order * M + 1,
+                           latitude_nodes=math.ceil((order * M + 1) / 2), latitude_spacing=spc, longitude_offset=off,
+                           radius=rad, spherical_harmonics_impl=impl)
+            cases.append(('with_wavenumbers(%d,%s,%s)' % (M, deal, spc), got, want, rad))
+    for impl, spc, off, rad in ((sh.RealSphericalHarmonics, 'gauss', 0.0, None), (F, 'equiangular', 0.3, 2.5)):
+        got = sh.Grid.construct(max_wavenumber=3, gaussian_nodes=4, latitude_spacing=spc, longitude_offset=off, radius=rad,
+                                spherical_harmonics_impl=impl)
+        want = sh.Grid(longitude_wavenumbers=4, total_wavenumbers=5, longitude_nodes=16, latitude_nodes=8, latitude_spacing=spc,
+                       longitude_offset=off, radius=rad, spherical_harmonics_impl=impl)
+        cases.append(('construct(3,4,%s)' % spc, got, want, rad))
+    for nm, mw, gn in (('T21', 21, 16), ('TL31', 31, 16)):
+        got = getattr(sh.Grid, nm)(radius=6371220.0, spherical_harmonics_impl=F, longitude_offset=0.1)
+        want = sh.Grid(longitude_wavenumbers=mw + 1, total_wavenumbers=mw + 2, longitude_nodes=4 * gn, latitude_nodes=2 * gn,
+                       radius=6371220.0, spherical_harmonics_impl=F, longitude_offset=0.1)
+        cases.append((nm, got, want, 6371220.0))
+    for nm, got, want, rad in cases:
+        ctx.oracle('Grid.%s equals the explicitly specified grid (sizes, spacing, offset, radius, implementation)' % nm,
+                   bool(got == want) and got.radius == (1.0 if rad is None else rad)
+                   and got.spherical_harmonics_impl is want.spherical_harmonics_impl, {'got': str(got)[:300]})
+        l = np.asarray(got.modal_axes[1]).astype(np.float64)
+        x = rng.integers(-8, 9, size=got.modal_shape).astype(np.float64)
+        r = 1.0 if rad is None else rad
+        ctx.oracle_close('Grid.%s: laplacian = -l(l+1)/radius^2' % nm, np.asarray(got.laplacian(x)), -l * (l + 1) / r ** 2 * x,
+                         scale=float(np.abs(l * (l + 1) / r ** 2).max() * 8) + 1e-300)
+        g1 = dataclasses.replace(got, radius=3.0 * r)
+        ctx.oracle_close('dataclasses.replace(grid, radius=3r) has its own eigenvalues', np.asarray(g1.laplacian(x)) * 9.0,
+                         np.asarray(got.laplacian(x)), scale=float(np.abs(l * (l + 1) / r ** 2).max() * 8) + 1e-300)
+        if x.size < 500:
+            ctx.oracle_close('dataclasses.replace(grid, radius=3r): cos_lat_grad scales by 1/3', np.stack(g1.cos_lat_grad(x)) * 3.0,
+                             np.stack(got.cos_lat_grad(x)), scale=float(np.abs(np.stack(got.cos_lat_grad(x))).max()) + 1e-300)
 
 
 def r_wrappers_fine(ctx, a):
@@ -1061,4 +1109,4 @@ def r_jit_static(ctx, a):
 RUNNERS = {'wrappers_fine': r_wrappers_fine, 'jit_static': r_jit_static, 'shift': r_shift, 'shift2d': r_shift2d, 'clip_reject': r_clip_reject, 'fourier_deriv': r_fourier_deriv,
            'tables': r_tables, 'onehot': r_onehot, 'random_ops': r_random_ops, 'analytic': r_analytic,
            'sec2_hyp': r_sec2_hyp, 'vecid': r_vecid, 'roundtrip_basis': r_roundtrip_basis, 'spectral_id': r_spectral_id,
-           'forms': r_forms, 'purity': r_purity, 'deriv_axes': r_deriv_axes, 'sharded': r_sharded}
+           'forms': r_forms, 'purity': r_purity, 'deriv_axes': r_deriv_axes, 'sharded': r_sharded, 'constructors': r_constructors}
